@@ -63,7 +63,11 @@ func checkGroups(gs []walGroup, what string) *kit.Violation {
 	return nil
 }
 
-func runC08(t *testing.T, c KVCase) *kit.Result {
+func runC08(t *testing.T, sc SeqCase) *kit.Result {
+	if sc.Conc != nil {
+		return runC08Conc(t, sc)
+	}
+	c := sc.KVCase
 	res := kit.NewResult()
 	cfg := c.Sched.Config()
 	cfg.Verbose = kit.Verbose
@@ -74,6 +78,8 @@ func runC08(t *testing.T, c KVCase) *kit.Result {
 		ops := c.Ops
 		var prevReported uint64 // last sequence reported after the latest acknowledged write
 		ackedSteps, rotations, restarts, crashes := 0, 0, 0, 0
+		lossy := false // the latest stop may have cost acknowledged writes (crash without synchronous logging)
+		node := fs.Node("n1")
 		fail := func(v *kit.Violation) {
 			if res.V == nil {
 				res.V = v
@@ -81,7 +87,7 @@ func runC08(t *testing.T, c KVCase) *kit.Result {
 		}
 		for len(ops) > 0 && res.V == nil {
 			var stopOp string
-			kit.OnNode(fs, "n1", "incarnation", func() {
+			died := kit.OnNode(fs, "n1", "incarnation", func() {
 				e, err := kit.OpenEngine("n1", c.Knobs)
 				if err != nil {
 					fail(&kit.Violation{Kind: "open-error", Signature: "open-error", Detail: err.Error()})
@@ -105,10 +111,15 @@ func runC08(t *testing.T, c KVCase) *kit.Result {
 					fail(&kit.Violation{Kind: "reported-sequence-regressed", Signature: "reported-below-stored-after-open", Detail: fmt.Sprintf("after open the reported last sequence is %d but the log holds sequence %d", rep, maxStored)})
 					return
 				}
-				if crashes == 0 {
-					// no write was lost: the reported value must not have decreased across the restart
+				if !lossy {
+					// no acknowledged write was lost (clean stop, or a process crash with
+					// synchronous logging): the reported value must not have decreased
 					if rep, ok := lastSeq(e); ok && rep < prevReported {
-						fail(&kit.Violation{Kind: "reported-sequence-regressed", Signature: "reported-regressed-across-clean-restart", Detail: fmt.Sprintf("reported last sequence %d after a clean restart, %d before", rep, prevReported)})
+						how := "clean-restart"
+						if crashes > 0 {
+							how = "restart"
+						}
+						fail(&kit.Violation{Kind: "reported-sequence-regressed", Signature: "reported-regressed-across-" + how, Detail: fmt.Sprintf("reported last sequence %d after a restart that lost no acknowledged write, %d before", rep, prevReported)})
 						return
 					}
 				} else {
@@ -154,6 +165,13 @@ func runC08(t *testing.T, c KVCase) *kit.Result {
 					case "get":
 						kit.GetKey(e, op.Key)
 					case "reopen", "crash":
+						if op.K == "crash" && op.D > 0 {
+							// the process dies inside one of the next I/O operations
+							node.CrashAt = node.IOCount + op.D
+							node.CrashMode = op.Len % 3
+							node.TornFrac = float64(op.Tag%1000) / 1000
+							continue
+						}
 						stopOp = op.K
 						if op.K == "reopen" {
 							if rep, ok := lastSeq(e); ok && rep < prevReported {
@@ -175,13 +193,21 @@ func runC08(t *testing.T, c KVCase) *kit.Result {
 			if res.V != nil {
 				break
 			}
-			switch stopOp {
-			case "crash":
+			node.CrashAt = 0
+			switch {
+			case died:
+				fs.Restart("n1")
+				crashes++
+				lossy = c.Knobs.SyncMode != 2
+				res.Fault("crash_inside_io", 1)
+			case stopOp == "crash":
 				fs.CrashNow("n1")
 				fs.Restart("n1")
 				crashes++
+				lossy = c.Knobs.SyncMode != 2
 				res.Fault("crash_between_io", 1)
 			default:
+				lossy = false
 				simrt.KillTagged("n1", fs.Node("n1").Gen)
 				fs.Restart("n1")
 				restarts++
@@ -215,9 +241,12 @@ func runC08(t *testing.T, c KVCase) *kit.Result {
 }
 
 func TestC08(t *testing.T) {
-	kit.Main(t, kit.Spec[KVCase]{
+	kit.Main(t, kit.Spec[SeqCase]{
 		ID: "C08",
-		Gen: func(r *kit.Rand, tier string) KVCase {
+		Gen: func(r *kit.Rand, tier string) SeqCase {
+			if r.Bool(0.3) {
+				return genSeqConc(r, tier)
+			}
 			max := 50
 			if tier == "thorough" {
 				max = 150
@@ -227,18 +256,32 @@ func TestC08(t *testing.T) {
 			for i := range c.Ops {
 				if c.Ops[i].K == "reopen" && r.Bool(0.5) {
 					c.Ops[i].K = "crash"
+					if r.Bool(0.5) {
+						// inside one of the I/O operations of the writes that follow
+						c.Ops[i].D, c.Ops[i].Len, c.Ops[i].Tag = int64(r.Range(1, 12)), r.Intn(3), uint32(r.Intn(1000))
+					}
 				}
 			}
-			return c
+			return SeqCase{KVCase: c}
 		},
-		Run:    runC08,
-		Shrink: shrinkKVCase,
-		Strip: func(c KVCase) any {
+		Run: runC08,
+		Shrink: func(c SeqCase) []SeqCase {
+			var out []SeqCase
+			if c.Conc != nil {
+				return shrinkSeqConc(c)
+			}
+			for _, k := range shrinkKVCase(c.KVCase) {
+				out = append(out, SeqCase{KVCase: k})
+			}
+			return out
+		},
+		Strip: func(c SeqCase) any {
 			return struct {
 				K kit.Knobs
 				O []kit.Op
-			}{c.Knobs, c.Ops}
+				C *SeqConc
+			}{c.Knobs, c.Ops, c.Conc}
 		},
-		Rule: "seeded single-writer programmes with explicit flushes (log rotation), automatic rotations, clean restarts and process crashes; after every acknowledged write the reported last sequence must exceed that of every earlier surviving write; at every open and at the end the stored log entries (file order) must have strictly increasing sequence groups; non-trivial = >=3 acknowledged steps and >=1 rotation/restart/crash",
+		Rule: "70% seeded single-writer programmes with explicit flushes (log rotation), automatic rotations, clean restarts and process crashes (between two I/O operations, or inside one of the next 1-12: before it, after it, or with a torn write); after every acknowledged write the reported last sequence must exceed that of every earlier surviving write; after a stop that lost no acknowledged write (clean, or crash with synchronous logging) the reported value must not be lower than before; at every open and at the end the stored log entries (file order) must have strictly increasing sequence groups. 30% concurrent: 2-5 (thorough: 2-8) writer tasks (puts, deletes, batches, transactions on keys unique per operation), a maintenance task (flush/compact), 0-2 observer tasks, in half of the cases the node is a replication primary (real replication.Manager); each write's number is taken from the log's observer interface; calls are stamped with a global event counter and, for calls that did not overlap: a later write carries a higher number, a later reading of storage_last_sequence (statistics) or of last_sequence (replication manager node information) is not lower than an earlier one, and a statistics reading after an acknowledged write is not lower than that write's number. non-trivial = >=3 acknowledged steps and >=1 rotation/restart/crash (sequential) or >=3 acknowledged writes by >=2 writers (concurrent)",
 	})
 }
